@@ -30,10 +30,20 @@ def determinism_selftest(pid, tier, spec_name, hists):
     return {"rerun": len(hists), "ok": True}
 
 
+def resolve_spec(mod, tier, spec_name):
+    """'<name>@quick+k' = the quick tier's spec explored k layers deeper (used by the thorough tier)"""
+    if spec_name and "@quick" in spec_name:
+        base, _, k = spec_name.partition("@quick")
+        sp = mod.make_spec("quick", base)
+        sp.deepen(int(k.lstrip("+") or 0))
+        return sp
+    return mod.make_spec(tier, spec_name)
+
+
 def digests(pid, tier, spec_name, hists):
     import importlib
     mod = importlib.import_module("mcx.props.%s" % pid.lower())
-    spec = mod.make_spec(tier, spec_name)
+    spec = resolve_spec(mod, tier, spec_name)
     engine._init_worker(spec, 0)
     out = []
     for h in hists:
@@ -54,6 +64,25 @@ def run_specs(pid, tier, seed, args, specs, level="model_checking", rule="", ass
               extra_viols=(), extra_samples=()):
     """specs: list of (name, spec, depth, budget_s)"""
     t0 = time.time()
+    if tier == "thorough":
+        # the thorough tier = the quick tier's alphabet explored deeper + the larger alphabet; one total time cap,
+        # split evenly; a spec that hits its share reports the last depth it completed
+        import importlib
+        mod = importlib.import_module("mcx.props.%s" % pid.lower())
+        twins = []
+        for (name, spec, depth, budget) in specs:
+            try:
+                tw = resolve_spec(mod, tier, name + "@quick+2")
+                twins.append((name + "@quick+2", tw, tw.depth, budget))
+            except Exception:
+                pass
+        specs = twins + list(specs)
+        total = float(os.environ.get("VERIF_THOROUGH_TOTAL", "1500"))
+        if args is not None and args.budget:
+            total = args.budget * len(specs)
+        specs = [(n, sp, d, total / len(specs)) for (n, sp, d, b) in specs]
+        if args is not None:
+            args.budget = None
     known = runner.load_known()
     total = {"states": 0, "transitions": 0, "evals": 0, "nontrivial": 0, "selfloops": 0}
     outcomes = set()
@@ -78,6 +107,8 @@ def run_specs(pid, tier, seed, args, specs, level="model_checking", rule="", ass
         total["nontrivial"] += res.nontrivial
         total["selfloops"] += res.selfloops
         outcomes |= set((name,) + (o,) for o in res.outcomes)
+        for v in res.viols:
+            v["spec"] = name
         viols.extend(res.viols)
         set_digests[name] = res.set_digest
         per.append({"spec": name, "depth_target": depth, "depth_completed": res.depth_completed,
